@@ -226,6 +226,9 @@ func (st *State) known(id Term) {
 		return
 	}
 	st.assume(Lt(id, st.allocCtr))
+	// if id is the region of an embedded array field, its owner object is
+	// already allocated too
+	st.assume(Lt(mkTerm("(rg.owner "+id.S+")", SortInt), st.allocCtr))
 }
 
 func heapSym(name string) string { return "H_" + mangle(name) }
